@@ -500,6 +500,132 @@ def method_sweep(ctx, reps):
                 w.check(prs.part.package, desc, outcome, history)
 
 
+def perm_families():
+    """(name, locate(prs) -> (object, element to restore), ops): structural operations on ONE element; every ordered
+    selection of three of them is run from the same start state (order-dependent insertion: `c:txPr` re-created after
+    `c:dLblPos` was added, `a:lnSpc` after `a:spcBef`, ...)"""
+    from pptx.dml.color import RGBColor
+    from pptx.enum.chart import XL_LABEL_POSITION, XL_TICK_LABEL_POSITION, XL_TICK_MARK
+    from pptx.enum.text import MSO_ANCHOR, MSO_AUTO_SIZE, PP_ALIGN
+    from pptx.util import Pt
+
+    def chart(prs, i=0):
+        return [sh for sh in prs.slides[2].shapes if getattr(sh, "has_chart", False)][i].chart
+
+    def shape(prs):
+        return prs.slides[1].shapes[0]
+
+    def table(prs):
+        return [sh for sh in prs.slides[1].shapes if getattr(sh, "has_table", False)][0].table
+
+    def set_(name, v):
+        def f(o):
+            x = o
+            parts = name.split(".")
+            for a in parts[:-1]:
+                x = getattr(x, a)
+            setattr(x, parts[-1], v)
+        return (f"{name}={v!r}"[:60], f)
+
+    def call(name):
+        def f(o):
+            x = o
+            for a in name.split("."):
+                x = getattr(x, a)
+            if callable(x):
+                x()
+        return (name, f)
+
+    def pt_loc(prs):
+        ser = chart(prs).plots[0].series[0]
+        return ser.points[1], ser._element
+    fams = [
+        ("point / data label", pt_loc, [
+            call("data_label.text_frame"), set_("data_label.has_text_frame", True), set_("data_label.has_text_frame", False),
+            set_("data_label.position", XL_LABEL_POSITION.OUTSIDE_END), set_("data_label.position", None), set_("data_label.font.bold", True),
+            call("format.fill.solid"), set_("format.line.width", 12700)]),
+        ("plot data labels", lambda prs: ((lambda pl: (pl.data_labels, pl._element))(chart(prs, 1).plots[0])), [
+            set_("font.bold", True), set_("number_format", "0.0"), set_("number_format_is_linked", False), set_("number_format_is_linked", True),
+            set_("position", XL_LABEL_POSITION.ABOVE), set_("position", None), set_("show_value", True), set_("show_percentage", True),
+            set_("show_legend_key", False), set_("show_series_name", True), set_("show_category_name", False)]),
+        ("value axis", lambda prs: ((lambda a: (a, a._element))(chart(prs).value_axis)), [
+            set_("has_title", True), set_("has_title", False), set_("axis_title.text_frame.text", "t"), set_("has_major_gridlines", True),
+            set_("has_minor_gridlines", True), set_("has_major_gridlines", False), set_("major_unit", 2.0), set_("minor_unit", 0.5),
+            set_("maximum_scale", 9.0), set_("minimum_scale", None), set_("tick_labels.font.size", Pt(9)), set_("tick_labels.number_format", "0"),
+            set_("tick_labels.offset", 40) if False else set_("major_tick_mark", XL_TICK_MARK.CROSS), set_("minor_tick_mark", XL_TICK_MARK.INSIDE),
+            set_("tick_label_position", XL_TICK_LABEL_POSITION.HIGH), set_("format.line.width", 12700), set_("visible", False), set_("reverse_order", True)]),
+        ("paragraph", lambda prs: ((lambda p_: (p_, p_._p))(shape(prs).text_frame.paragraphs[0])), [
+            set_("alignment", PP_ALIGN.CENTER), set_("level", 2), set_("line_spacing", 1.5), set_("line_spacing", Pt(14)), set_("line_spacing", None),
+            set_("space_before", Pt(3)), set_("space_after", Pt(4)), set_("space_before", None), set_("font.size", Pt(11)), call("add_line_break"),
+            call("add_run"), set_("font.bold", True)]),
+        ("run", lambda prs: ((lambda r: (r, r._r))(shape(prs).text_frame.paragraphs[0].runs[0])), [
+            set_("font.size", Pt(10)), set_("font.bold", True), set_("font.color.rgb", RGBColor(1, 2, 3)), call("font.fill.gradient"), set_("font.name", "Arial"),
+            set_("hyperlink.address", "http://a.b/"), set_("hyperlink.address", None), set_("font.language_id", None), set_("font.underline", True),
+            call("font.fill.background"), set_("font.name", None)]),
+        ("text frame", lambda prs: ((lambda tf: (tf, tf._txBody.bodyPr))(shape(prs).text_frame)), [
+            set_("auto_size", MSO_AUTO_SIZE.TEXT_TO_FIT_SHAPE), set_("auto_size", MSO_AUTO_SIZE.NONE), set_("auto_size", None), set_("word_wrap", True),
+            set_("margin_left", 0), set_("vertical_anchor", MSO_ANCHOR.MIDDLE), set_("word_wrap", None)]),
+        ("table cell", lambda prs: ((lambda c: (c, c._tc))(table(prs).cell(1, 1))), [
+            set_("margin_left", 0), set_("margin_top", None), set_("vertical_anchor", MSO_ANCHOR.BOTTOM), call("fill.solid"), call("fill.background"),
+            set_("text", "x\ny"), set_("vertical_anchor", None)]),
+        ("shape properties", lambda prs: ((lambda sh: (sh, sh._element.spPr))(shape(prs))), [
+            call("fill.solid"), call("fill.gradient"), call("fill.background"), set_("line.width", 12700), set_("line.color.rgb", RGBColor(9, 9, 9)),
+            call("line.fill.background"), set_("shadow.inherit", False), set_("shadow.inherit", True), set_("rotation", 30.0), set_("left", 5),
+            set_("line.dash_style", None)]),
+    ]
+    return fams
+
+
+def perm_sweep(ctx, cap):
+    """every ordered selection of three structural operations on one element (all of them up to `cap` per family, a seeded
+    sample beyond), each from the same start state, the changed part validated after every step"""
+    import copy
+    import itertools
+
+    from harness.props.c09 import build_deck
+
+    rng = ctx.rng
+    prs = build_deck()
+    w = Watch(ctx, "generated-deck(permutations)")
+    w.check(prs.part.package, "<open>", "ok", [])
+    for name, locate, ops in perm_families():
+        try:
+            _, el0 = locate(prs)
+        except Exception as e:  # noqa
+            ctx.count(f"perm-family-unavailable:{name}:{type(e).__name__}")
+            continue
+        start = copy.deepcopy(el0)
+        seqs = list(itertools.permutations(range(len(ops)), 3)) + list(itertools.permutations(range(len(ops)), 2))
+        if len(seqs) > cap:
+            seqs = rng.sample(seqs, cap)
+        for seq in seqs:
+            obj, el = locate(prs)
+            fresh = copy.deepcopy(start)
+            el.getparent().replace(el, fresh)
+            w.check(prs.part.package, f"<restore {name}>", "ok", [])
+            history = []
+            for i in seq:
+                obj, _ = locate(prs)
+                lab_, f = ops[i]
+                try:
+                    f(obj)
+                    outcome = "ok"
+                except oplab.REJECT as e:
+                    outcome = f"rejected:{type(e).__name__}"
+                except Exception as e:  # noqa
+                    tb = traceback.extract_tb(e.__traceback__)[-1]
+                    outcome = "raised"
+                    ctx.count(f"undocumented-exception:{type(e).__name__}@{tb.filename.split('/')[-1]}:{tb.lineno}")
+                history.append(f"{name}: {lab_}")
+                ctx.count("perm-sweep-" + outcome.split(":")[0])
+                ctx.case(key=("perm", name, seq[: len(history)]))
+                if w.check(prs.part.package, history[-1], outcome, history):
+                    # the part is now recorded as invalid: restore it and let the next sequence be judged again
+                    for pn in list(w.tainted):
+                        w.tainted.discard(pn); w.valid[pn] = True
+                    break
+
+
 def histories(ctx, n_seq, nops):
     decks = [None, None] + common.corpus_decks()
     lines = []
@@ -527,6 +653,7 @@ def correspond(ctx):
     probe_geometry(ctx)
     sweep(ctx, 2 if ctx.quick else 12)
     method_sweep(ctx, 3 if ctx.quick else 20)
+    perm_sweep(ctx, 400 if ctx.quick else 10**6)
     histories(ctx, 120 if ctx.quick else 1500, 25 if ctx.quick else 40)
 
 
@@ -534,6 +661,7 @@ def search(ctx, hints):
     probe_geometry(ctx)
     sweep(ctx, 6)
     method_sweep(ctx, 8)
+    perm_sweep(ctx, 10**6)
     histories(ctx, 300 if ctx.quick else 2500, 30)
 
 
